@@ -93,18 +93,21 @@ func (r *Reader) readIloc(b *box) (err error) {
 		ent.count = bmffEndian.Uint16(buf[i : i+2])
 		i += 2
 
-		for j := 0; j < int(ent.count); j++ {
+		if ent.count > 0 {
+			// only the first extent of an item is used; the others are
+			// stepped over (not visited one by one: the count is a field of
+			// the file)
 			var ol offsetLength
-			if j == 0 {
-				if i+int(ilb.offsetSize)+int(ilb.lengthSize) > len(buf) {
-					return b.close()
-				}
-				ol.offset = uintN(ilb.offsetSize, buf[i:i+int(ilb.offsetSize)])
-				i += int(ilb.offsetSize)
-				ol.length = uintN(ilb.lengthSize, buf[i:i+int(ilb.lengthSize)])
-				i += int(ilb.lengthSize)
-				ent.firstExtent = ol
+			extentSize := int(ilb.offsetSize) + int(ilb.lengthSize)
+			if i+extentSize > len(buf) {
+				return b.close()
 			}
+			ol.offset = uintN(ilb.offsetSize, buf[i:i+int(ilb.offsetSize)])
+			i += int(ilb.offsetSize)
+			ol.length = uintN(ilb.lengthSize, buf[i:i+int(ilb.lengthSize)])
+			i += int(ilb.lengthSize)
+			ent.firstExtent = ol
+			i += (int(ent.count) - 1) * extentSize
 		}
 		if optionSpeed == 0 {
 			ilb.items = append(ilb.items, ent)
